@@ -28,6 +28,7 @@ type UnitResult struct {
 	Outcomes       int                  `json:"distinct_outcomes"`
 	OutcomeSample  []string             `json:"outcome_sample,omitempty"`
 	BoundCompleted int                  `json:"bound_completed"`
+	CapHit         bool                 `json:"cap_hit,omitempty"` // the unit's execution cap, not its deadline, ended the exploration
 	Exhaustive     bool                 `json:"exhaustive"`
 	Violations     []vrt.FoundViolation `json:"violations,omitempty"`
 	HarnessErrors  []string             `json:"harness_errors,omitempty"`
@@ -265,17 +266,25 @@ func coordinator(prop, tier string) int {
 			order[i], order[j] = order[j], order[i]
 		}
 	}
-	jobs := make(chan int, len(units))
-	for _, i := range order {
-		jobs <- i
-	}
-	close(jobs)
 	results := make([]*UnitResult, len(units))
 	var mu sync.Mutex
 	var infra []string
+	self, _ := os.Executable()
+	passes := 0
+	runPass := func(pending []int) {
+	passes++
+	jobs := make(chan int, len(pending))
+	for _, i := range pending {
+		jobs <- i
+	}
+	close(jobs)
+	nUnits := len(pending)
+	nw := nw
+	if nw > nUnits {
+		nw = nUnits
+	}
 	dealt := 0
 	var wg sync.WaitGroup
-	self, _ := os.Executable()
 	for w := 0; w < nw; w++ {
 		wg.Add(1)
 		go func(w int) {
@@ -312,7 +321,7 @@ func coordinator(prop, tier string) int {
 				// fair share: what is left of the budget, spread over the units not yet dealt, so that
 				// every unit is explored to some completed bound instead of the last ones not at all
 				mu.Lock()
-				left := len(units) - dealt
+				left := nUnits - dealt
 				dealt++
 				mu.Unlock()
 				ud := deadline
@@ -360,6 +369,16 @@ func coordinator(prop, tier string) int {
 					continue
 				}
 				mu.Lock()
+				if prev := results[idx]; prev != nil {
+					// a later pass restarts the unit from bound 0 with a longer deadline: it supersedes the
+					// earlier result unless it got less far; violations are kept from both
+					if res.BoundCompleted < prev.BoundCompleted {
+						prev.Violations = append(prev.Violations, res.Violations...)
+						res = *prev
+					} else {
+						res.Violations = append(res.Violations, prev.Violations...)
+					}
+				}
 				results[idx] = &res
 				mu.Unlock()
 				served++
@@ -386,6 +405,21 @@ func coordinator(prop, tier string) int {
 		}(w)
 	}
 	wg.Wait()
+	}
+	runPass(order)
+	// thorough tier: units cut short by their fair share are taken up again while budget remains
+	for tier == "thorough" && passes < 4 && time.Until(deadline) > 90*time.Second {
+		var again []int
+		for _, i := range order {
+			if r := results[i]; r != nil && !r.Exhaustive && !r.Poisoned && len(r.HarnessErrors) == 0 && !r.CapHit {
+				again = append(again, i)
+			}
+		}
+		if len(again) == 0 {
+			break
+		}
+		runPass(again)
+	}
 
 	// bind the environment models to the real ATP stack
 	if pc.Level == "model_checking" {
